@@ -283,7 +283,8 @@ def implicitAccountV : Val → Res Val
 def resolveEp (eA eI : List Nat) : Option (List Nat) :=
   if eA = defaultEp then some eI else if eI = defaultEp then some eA else none
 
-/-- `CONTRACT %eI t` -/
+/-- `CONTRACT %eI t`.  An implicit account has the entrypoint `default` only and accepts `unit` — and, since Mumbai, every
+`ticket _` type; ticket types are outside `Ty`, so within the modelled universe the rule is "`unit` only". -/
 def contractV (t : Ty) (eI : List Nat) : Val → Res Val
   | .atom .address s =>
     match resolveEp (epOf s) eI with
